@@ -2,6 +2,7 @@ import GwModel.MergeDef
 import GwModel.MergeSchema
 import GwModel.Gen.Facts
 import GwModel.MergeSig
+import GwModel.MergeLocs
 /-! # C09 — Incompatible definitions are rejected with an error, never guessed or a crash
 
 Model: `Mg.mergeGroup` folds `mergeDef` (kind guard; object fields unioned with equal signatures on common
@@ -66,5 +67,21 @@ theorem defaults_accepted_iff_identical (a b : Option Ms.V) : Ms.valuesEqual a b
 theorem arguments_accepted_only_if_same {l1 l2 : List Ms.ArgDef} (h : Ms.argDefsEq l1 l2 = true) :
     l1.length = l2.length ∧ ∀ a ∈ l1, ∃ b ∈ l2, b.name = a.name ∧ b.type = a.type ∧ b.default = a.default :=
   Ms.argDefsEq_subset h
+
+
+/-- **definitions of a directive that differ in an executable location are refused** — in whichever list the
+    location is missing -/
+theorem directive_definitions_differing_in_an_executable_location_are_refused {α : Type} [DecidableEq α]
+    (isTS : α → Bool) (l1 l2 : List α) (x : α) (hx : isTS x = false) (h1 : x ∈ l1) (h2 : x ∉ l2) :
+    Ml.mergeLocs isTS l1 l2 = none ∧ Ml.mergeLocs isTS l2 l1 = none := by
+  refine ⟨Ml.mergeLocs_refuses isTS l1 l2 x hx h1 h2, ?_⟩
+  have := Ml.mergeLocs_isSome_comm isTS l2 l1
+  rw [Ml.mergeLocs_refuses isTS l1 l2 x hx h1 h2] at this
+  cases h : Ml.mergeLocs isTS l2 l1 with
+  | none => rfl
+  | some r => rw [h] at this; cases this
+
+example : Ml.mergeLocs Ml.isTypeSystem ["FIELD", "OBJECT"] ["QUERY", "FIELD"] = none ∧
+          Ml.mergeLocs Ml.isTypeSystem ["FIELD"] ["FIELD", "VARIABLE_DEFINITION"] = none := by decide
 
 end Props.C09
